@@ -33,10 +33,11 @@ CLAIMED = {
  "C17": dict(engine="engine", cat="model_checking", ref="6.C17",
    technique="TLC: Engine.tla with KeyboardInterrupt at every coordinator label while starting workers / in queue.join(); scheduler-injected KeyboardInterrupt in real executions validated against RunAbs (late-start budget, KbInt guards)",
    text="The interrupt is an environment action of Engine.tla (also inside Thread.start); refinement of RunAbs's Interrupt/KbInt and termination are model-checked; in real executions the scheduler raises KeyboardInterrupt in the calling thread during the k-th call and the trace monitor checks the late-start budget, completion of in-flight calls, thread exit and propagation. Only interrupts delivered while a call was executing count (the property's premise).",
-   note=ENGINE_NOTE + " Real-signal delivery is not used in the quick tier."),
+   note=ENGINE_NOTE + " Real-signal delivery is not used. Reading of 'no further call is started': from the calling thread's first lock of the work queue after the interrupt (queue.put(DONE), after the stop flag is set), each worker that is neither executing a call nor blocked inside queue.get may start at most one more call; Thread.ident is None until start() returned or the thread ran, as in CPython."),
 }
 
-CACHING_NOTE = ("Trusted: TLC; the harness stores (in-memory, logical clock, contents are terms) meeting the property's stated assumptions; the "
+CACHING_NOTE = ("Trusted: TLC; the harness stores (in-memory, logical clock, contents are terms; in a tenth of the histories the library's own file stores with real "
+                "modified times spaced 3 ms apart; in half of them instants written as naive-local / aware datetimes under ten process time zones) meeting the property's stated assumptions; the "
                 "linearization of the event log (every effect and its record under one lock). Caching.tla is model-checked exhaustively only for "
                 "the small scenarios and clock bound listed in the evidence; histories on the real library are seeded samples plus enumerated cuts.")
 CLAIMED.update({
@@ -66,8 +67,8 @@ CLAIMED.update({
    note=CACHING_NOTE),
 })
 
-FS_NOTE = ("Trusted: TLC; the interposition layer (builtins.open / os.replace / os.rename / os.remove / os.unlink wrapped by vf/fsx.py) sees every file "
-           "operation of the stores; rename atomicity and 'what has been flushed is on disk' (no power-loss semantics); process death is simulated from "
+FS_NOTE = ("Trusted: TLC; the interposition layer (builtins.open / io.open / os.replace / os.rename / os.remove / os.unlink wrapped by vf/fsx.py, including "
+           "module globals of the library bound to them by name) sees every file operation of the stores; any other file next to the target is its staging file; rename atomicity and 'what has been flushed is on disk' (no power-loss semantics); process death is simulated from "
            "the on-disk state before each operation.")
 CLAIMED.update({
  "C11": dict(engine="filestore", cat="fault_enumeration", ref="6.C11",
@@ -81,14 +82,15 @@ CLAIMED.update({
 })
 
 PROG_NOTE = ("Trusted: TLC; the recording observer (notifications appended under one lock); for C20 the replacement of the observers' clock by the model "
-             "clock and, in the threaded part, the deterministic scheduler's cooperative threading layer. Sequences are sampled by TLC simulation, not exhaustive.")
+             "clock and, in the threaded part, the deterministic scheduler's cooperative threading layer; the final-counts oracle reads the displays' output with a parser that is "
+             "calibrated on a trivial sequence first and is not applied to an observer whose format it does not recognise (recorded as 'degraded' in the evidence). Sequences are sampled by TLC simulation, not exhaustive.")
 CLAIMED.update({
  "C15": dict(engine="progress", cat="model_checking", ref="6.C15",
    technique="TLC: Progress.tla (notification protocol) model-checked; ProgressTrace.tla validates the notification sequences recording observers (alone / inside composites) received from real runs - registry histories and engine executions under the deterministic scheduler - joined with the calls that executed",
    text="The protocol (enter first, exit once and last on every outcome, totals before running, every running followed by exactly one completed/failed, nothing running at exit when calls end normally or with an Exception, completed = total after success, per-scope run totals = executed calls, stale totals = calls examined, composite members identical) is a TLA+ specification; thousands of real runs (all failure patterns, cuts, dry runs, schedules, max_errors, retry, exception types incl. uberjob's own CallError/NodeError, transformations returning a different plan) are validated against it by TLC; composites with a member that cannot be entered must exit every entered member exactly once.",
    note=PROG_NOTE),
  "C20": dict(engine="progress", cat="model_checking", ref="6.C20",
-   technique="Progress.tla as a generator: TLC simulation emits legal notification sequences with ticks and render points anywhere; each is replayed into the real Console/HTML/IPython observers (model clock) over families of scope tuples, and into the HTML observer with its real update thread under the deterministic scheduler",
+   technique="Progress.tla as a generator: TLC simulation emits legal notification sequences with ticks and render points anywhere; each is replayed into the real Console/HTML/IPython observers (model clock) over families of scope tuples, and into all three with their real update thread under the deterministic scheduler (random schedules and bounded-preemption enumeration) through the public interface only",
    text="Spec-to-implementation replay: every generated sequence x scope family (ints, strings, mixed types, different lengths, unorderable same-type values, classes, None, tuples, frozensets) must render without raising (also inside the update thread), the last rendering mentioning a scope must show its final counts, and the attributed elapsed time must add up to the model's busy time; the threaded part explores interleavings of notifications with rendering/emission.",
    note=PROG_NOTE),
 })
@@ -101,7 +103,7 @@ CLAIMED.update({
  "C16": dict(engine="engine", cat="model_checking", ref="6.C16",
    technique="TLC: Physical.tla (result slots, BoundCalls, what uberjob can still reach) checked for all consumer relations on 4 calls; PhysicalTrace.tla validates weak-reference liveness snapshots (after gc) taken at every call boundary and 'completed' notification of real executions under the deterministic scheduler",
    text="ReleasedAfterLastConsumer is an invariant of the slot/BoundCall model; on the real engine, results are fresh weak-referenceable objects and the set still alive is logged at every call start, call end and completion notification, for random plans, outputs, worker counts, schedulers and schedules; TLC requires every live result to be the output, a result of a call not yet wound up, or consumed by an unfinished call.",
-   note="Trusted: TLC; gc.collect() + weak references as the liveness observation; the deterministic scheduler. Fault-free runs only (the property's quantifier); a failing consumer that keeps its arguments alive is outside what this check decides."),
+   note="Trusted: TLC; gc.collect() + weak references as the liveness observation; the deterministic scheduler. Fault-free runs and runs that go on after failing calls (error budget); the arguments of the one call whose failure run reports are exempt (the reported exception's traceback holds that call's frame)."),
  "C18": dict(engine="timenorm", cat="model_checking", ref="6.C18",
    technique="TLC: TimeNorm.tla decision table (zones with a DST fall-back, instants on a grid, naive-local / aware representations) checked exhaustively; the same table executed on the real stale check in processes under 5 TZ settings (incl. real files with os.utime), validated by TimeNormTrace.tla which resolves what the datetime objects carried to instants",
    text="DecisionDependsOnInstantsOnly holds for the repaired normalisation on the whole table and is refuted by TLC for the pre-fix one (non-vacuity); every pair of instants around each zone's fall-back x every pair of representations x {upstream time, fresh_time} is run through uberjob.run and judged by TLC on instants.",
